@@ -1,6 +1,7 @@
 package main
 
 import (
+	"go/token"
 	"fmt"
 	"go/types"
 	"sort"
@@ -404,6 +405,7 @@ func (e *Enc) modularCall(fr *Frame, st *State, c *FuncContract, names []string,
 	st.alloc = na
 	res := e.fresh(rt, "res."+sanitize(calleeName))
 	e.assume(st, e.wf(res, st.alloc))
+	e.resultsAvoidUnescaped(fr, st, site, res)
 	e.bindResults(vars, res, sig)
 	env2 := &SpecEnv{e: e, cur: st, old: old, vars: vars, pkg: cpkg}
 	// components the postcondition reads in the new state get a fresh version above the old
@@ -1021,4 +1023,140 @@ func contractMentionsCaptured(c *FuncContract) bool {
 		}
 	}
 	return false
+}
+
+// ---------- results of calls cannot point at locals that have not escaped yet ----------
+// A callee can only return pointers to objects that existed and were reachable to it, or to
+// fresh objects. A local variable of the caller whose address has not been handed out before
+// the call (every escaping use comes strictly later) is neither: results do not alias it.
+
+func escapingUses(v ssa.Value, out *[]ssa.Instruction, seen map[ssa.Value]bool) {
+	if seen[v] {
+		return
+	}
+	seen[v] = true
+	refs := v.Referrers()
+	if refs == nil {
+		return
+	}
+	for _, r := range *refs {
+		switch x := r.(type) {
+		case *ssa.FieldAddr:
+			if x.X == v {
+				escapingUses(x, out, seen)
+				continue
+			}
+		case *ssa.IndexAddr:
+			if x.X == v {
+				escapingUses(x, out, seen)
+				continue
+			}
+		case *ssa.UnOp:
+			if x.Op == token.MUL {
+				continue
+			}
+		case *ssa.Store:
+			if x.Val != v {
+				continue
+			}
+		case *ssa.DebugRef:
+			continue
+		}
+		*out = append(*out, r)
+	}
+}
+
+func instrIndex(b *ssa.BasicBlock, in ssa.Instruction) int {
+	for i, x := range b.Instrs {
+		if x == in {
+			return i
+		}
+	}
+	return -1
+}
+
+func (e *Enc) resultsAvoidUnescaped(fr *Frame, st *State, site ssa.Instruction, res *Val) {
+	if fr == nil || site == nil || site.Block() == nil || res == nil {
+		return
+	}
+	type pr struct {
+		term string
+		size int64
+	}
+	var ptrs []pr
+	var collect func(v *Val)
+	collect = func(v *Val) {
+		if v == nil {
+			return
+		}
+		switch v.K {
+		case KInt:
+			if v.T != nil && (isPointer(v.T)) {
+				ptrs = append(ptrs, pr{v.S[0], sizeOf(derefType(v.T))})
+			}
+		case KIface:
+			ptrs = append(ptrs, pr{v.S[1], 1})
+		case KStruct, KTuple:
+			for _, f := range v.F {
+				collect(f)
+			}
+		}
+	}
+	collect(res)
+	if len(ptrs) == 0 {
+		return
+	}
+	sb := site.Block()
+	si := instrIndex(sb, site)
+	for _, b := range fr.fn.Blocks {
+		for _, in := range b.Instrs {
+			a, ok := in.(*ssa.Alloc)
+			if !ok {
+				continue
+			}
+			av, have := fr.vals[a]
+			if !have {
+				continue
+			}
+			// every loop that contains the call must contain the allocation as well
+			okLoops := true
+			for _, li := range fr.loops {
+				if li.body[sb] && !li.body[a.Block()] {
+					okLoops = false
+					break
+				}
+			}
+			if !okLoops {
+				continue
+			}
+			var uses []ssa.Instruction
+			escapingUses(a, &uses, map[ssa.Value]bool{})
+			unescaped := true
+			for _, u := range uses {
+				ub := u.Block()
+				if ub == nil {
+					unescaped = false
+					break
+				}
+				if ub == sb {
+					if instrIndex(sb, u) <= si {
+						unescaped = false
+						break
+					}
+					continue
+				}
+				if !sb.Dominates(ub) {
+					unescaped = false
+					break
+				}
+			}
+			if !unescaped {
+				continue
+			}
+			sz := sizeOf(derefType(a.Type()))
+			for _, p := range ptrs {
+				e.assume(st, fmt.Sprintf("(or (<= (+ %s %d) %s) (>= %s (+ %s %d)))", p.term, p.size, av.term(), p.term, av.term(), sz))
+			}
+		}
+	}
 }
